@@ -587,13 +587,30 @@ def r23model(ctx: Ctx) -> RuleReport:
     if not paths:
         rep.undecided(key, an.loc(), 'paths of the function could not be enumerated')
     seen_match = seen_plain = False
+    # names unpacked from <match>.groups() stand for group(1), group(2) ...
+    grp_alias = {}
+    for n_ in walk_local(an.node):
+        if isinstance(n_, ast.Assign) and isinstance(n_.targets[0], ast.Tuple) and isinstance(n_.value, ast.Call) and isinstance(n_.value.func, ast.Attribute) \
+                and n_.value.func.attr == 'groups' and not n_.value.args:
+            for i_, e_ in enumerate(n_.targets[0].elts):
+                if isinstance(e_, ast.Name):
+                    grp_alias[e_.id] = ast.parse(f'{norm(n_.value.func.value)}.group({i_ + 1})', mode='eval').body
+
+    class _G(ast.NodeTransformer):
+        def visit_Name(self, n_):
+            return grp_alias.get(n_.id, n_) if isinstance(n_.ctx, ast.Load) else n_
     for conds, val, st in paths:
+        if val is not None and grp_alias:
+            import copy as _copy
+            val = _G().visit(_copy.deepcopy(val))
         if not (isinstance(val, ast.Tuple) and len(val.elts) == 2):
             rep.undecided(key, an.loc(st), norm(val)[:60] if val is not None else 'None')
             continue
         a, b = norm(val.elts[0]).replace(' ', ''), norm(val.elts[1]).replace(' ', '')
-        matched = [c for c, pol in conds if pol and ('.match(' in norm(c) or '.fullmatch(' in norm(c) or '.search(' in norm(c))]
-        unmatched = [c for c, pol in conds if not pol and ('.match(' in norm(c) or '.fullmatch(' in norm(c) or '.search(' in norm(c))]
+        def is_m(c):
+            return '.match(' in norm(c) or '.fullmatch(' in norm(c) or '.search(' in norm(c)
+        matched = [c for c, pol in conds if is_m(c) and ((pol and not norm(c).endswith(' is None')) or (not pol and norm(c).endswith(' is None')))]
+        unmatched = [c for c, pol in conds if is_m(c) and c not in matched]
         if matched:
             seen_match = True
             good = a.endswith('.group(1)') and b.startswith('int(') and b.endswith('.group(2))')
@@ -873,15 +890,17 @@ def r91(ctx: Ctx) -> RuleReport:
         if m:
             return ('V', True)
         return None
+    from ..resolve import calls_where
+    dfs_calls = calls_where(ctx, fi, lambda f: f.qualname == '_dfs', depth=2)
     MSG = {'graph is empty': 'empty', 'top is not set': 'notset', 'top is not a variable in the graph': 'notvar'}
     sites: Dict[str, Set[int]] = {'empty': set(), 'notset': set(), 'notvar': set(), 'dfs': set()}
     for nd in cfg.nodes:
-        if nd.kind != 'stmt' or nd.ast is None:
+        if nd.kind not in ('stmt', 'for') or nd.ast is None:
             continue
-        for x in ast.walk(nd.ast):
+        for x in ast.walk(nd.ast if nd.kind == 'stmt' else nd.ast.iter):
             if isinstance(x, ast.Constant) and x.value in MSG:
                 sites[MSG[x.value]].add(nd.id)
-            if isinstance(x, ast.Call) and norm(x.func) in ('_dfs', 'self._dfs') or (isinstance(x, ast.Call) and isinstance(x.func, ast.Name) and 'reach' in x.func.id.lower()):
+            if isinstance(x, ast.Call) and (norm(x.func) in ('_dfs', 'self._dfs') or any(x is c for c in dfs_calls)):
                 sites['dfs'].add(nd.id)
     missing = [k for k in ('empty', 'notset', 'notvar') if not sites[k]]
     if missing:
@@ -981,42 +1000,54 @@ def r93(ctx: Ctx) -> RuleReport:
         if s in (e_role, e_src, e_tgt):
             return ('entry', {e_role: 'role', e_src: 'src', e_tgt: 'tgt'}[s])
         return None
-    rets = [n for n in ast.walk(loop) if isinstance(n, ast.Return) and isinstance(n.value, ast.Tuple) and len(n.value.elts) == 3]
-    if not rets:
+    from ..resolve import symbolic_returns
+    try:
+        paths = [(c, v, st) for c, v, st in symbolic_returns(fi, loop.body) if v is not None and isinstance(st, ast.Return)]
+    except AnalysisError as e:
+        rep.undecided(f'{fi.fq}: the paths through the loop body can be enumerated', fi.loc(loop), str(e)[:80])
+        paths = []
+    if not paths:
         rep.undecided(f'{fi.fq}: the dereified triple is returned from inside the loop', fi.loc(loop))
-    for r in rets:
-        fx = facts_ex(ctx, fi, r)
+    for conds, val, r in paths:
+        if not (isinstance(val, ast.Tuple) and len(val.elts) == 3):
+            rep.undecided(f'{fi.fq}: a triple is returned', fi.loc(r), norm(val)[:60])
+            continue
         eqs = set()
-        for fsrc, pol in fx:
-            if not pol:
-                continue
-            try:
-                c = ast.parse(fsrc, mode='eval').body
-            except SyntaxError:
-                continue
-            if isinstance(c, ast.Compare) and len(c.ops) == 1 and isinstance(c.ops[0], ast.Eq):
-                a, b = slot(c.left), slot(c.comparators[0])
-                if a and b:
-                    pair = tuple(sorted([a, b]))
-                    eqs.add(pair)
+        for c, pol in conds:
+            leaves = []
+
+            def conj(e):
+                if isinstance(e, ast.BoolOp) and isinstance(e.op, ast.And):
+                    for v_ in e.values:
+                        conj(v_)
+                else:
+                    leaves.append(e)
+            if pol:
+                conj(c)
+            for c2 in leaves:
+                if isinstance(c2, ast.Compare) and len(c2.ops) == 1 and isinstance(c2.ops[0], ast.Eq):
+                    a, b = slot(c2.left), slot(c2.comparators[0])
+                    if a and b:
+                        eqs.add(tuple(sorted([a, b])))
         direct = {(('entry', 'src'), ('role', 's')), (('entry', 'tgt'), ('role', 't'))}
         swapped = {(('entry', 'src'), ('role', 't')), (('entry', 'tgt'), ('role', 's'))}
-        key = f'{fi.fq}: `{norm(r)[:60]}` is returned only for an entry whose two roles both match'
+        cdesc = ' and '.join((('' if pol else 'not ') + norm(c)) for c, pol in conds)[:60]
+        key = f'{fi.fq}: `{norm(val)[:50]}` (when {cdesc}) is returned only for an entry whose two roles both match'
         orient = 'direct' if direct <= eqs else ('swapped' if swapped <= eqs else None)
         if orient is None:
             part = sorted(eqs & (direct | swapped))
             rep.violation(key, fi.loc(r), f'the entry is accepted when only {len(part)} of its two roles is known to match ({[f"{a[1]}=={b[1]}" for a, b in part] or "none"}): a node whose other relation has '
                           f'any other role is collapsed into an edge with the wrong role / the wrong end, and reifying the result does not give the graph back')
             continue
-        s0, s1, s2 = slot(r.value.elts[0]), slot(r.value.elts[1]), slot(r.value.elts[2])
+        s0, s1, s2 = slot(val.elts[0]), slot(val.elts[1]), slot(val.elts[2])
         want = (('tgt', 's'), ('entry', 'role'), ('tgt', 't')) if orient == 'direct' else (('tgt', 't'), ('entry', 'role'), ('tgt', 's'))
         if (s0, s1, s2) == want:
             rep.ok(key, fi.loc(r), orient)
         elif None in (s0, s1, s2):
-            rep.undecided(key, fi.loc(r), norm(r.value))
+            rep.undecided(key, fi.loc(r), norm(val))
         else:
             rep.violation(key, fi.loc(r), f'the matching is {orient}, so the triple must be (target of the {"source" if orient == "direct" else "target"} relation, role of the entry, target of the other one); '
-                          f'it is {norm(r.value)[:70]}')
+                          f'it is {norm(val)[:70]}')
     # nothing matched -> ModelError, on every path that leaves the loop by exhaustion
     head = cfg.node_of(loop)
     raises = {nd.id for nd in cfg.nodes if nd.kind == 'stmt' and isinstance(nd.ast, ast.Raise)}
@@ -1033,15 +1064,35 @@ def r95(ctx: Ctx) -> RuleReport:
     rep = RuleReport('R95', r95.title, floor=3)
     fi = ctx.repo.func(M, '_dfs')
     pm = ctx.repo.parent_map(fi.node)
-    # (1) symmetric closure of the adjacency map
-    inner = [n for n in walk_local(fi.node) if isinstance(n, ast.For) and isinstance(pm.get(id(n)), ast.For) and isinstance(n.iter, ast.Name)]
+    # (1) symmetric closure of the adjacency map (in _dfs itself or in a helper it calls)
     key = f'{fi.fq}: every relation is entered in both directions (weak connectivity)'
     okc = False
-    for n in inner:
-        if _symmetric_closure(ctx, fi, pm, n, n.iter, 'for'):
-            okc = True
+    inner = []
+    for f2 in local_callees(ctx, fi, depth=2):
+        pm2 = ctx.repo.parent_map(f2.node)
+        for n in walk_local(f2.node):
+            if isinstance(n, ast.For) and isinstance(pm2.get(id(n)), ast.For) and isinstance(n.iter, ast.Name):
+                if f2 is fi:
+                    inner.append(n)
+                if _symmetric_closure(ctx, f2, pm2, n, n.iter, 'for'):
+                    okc = True
+    if not okc:
+        # the other common form: both directions are entered side by side   D[a].add(b); D[b].add(a)
+        import re as _re2
+        for f2 in local_callees(ctx, fi, depth=2):
+            adds = {}
+            for n in walk_local(f2.node):
+                if isinstance(n, ast.Expr) and isinstance(n.value, ast.Call):
+                    m_ = _re2.fullmatch(r'(\w+)\[(\w+)\]\.add\((\w+)\)', norm(n.value))
+                    if m_:
+                        adds[(m_.group(1), m_.group(2), m_.group(3))] = n
+            pm2 = ctx.repo.parent_map(f2.node)
+            for (d_, a_, b_), n in adds.items():
+                other = adds.get((d_, b_, a_))
+                if other is not None and a_ != b_ and pm2.get(id(n)) is pm2.get(id(other)):
+                    okc = True
     if okc:
-        rep.ok(key, fi.loc(inner[0]))
+        rep.ok(key, fi.loc(inner[0]) if inner else fi.loc())
     else:
         resets = [n for n in walk_local(fi.node) if isinstance(n, ast.Assign) and isinstance(n.targets[0], ast.Subscript) and isinstance(n.value, ast.Call)
                   and norm(n.value.func) == 'set' and not n.value.args]
@@ -1075,6 +1126,18 @@ def r95(ctx: Ctx) -> RuleReport:
                 rep.ok(key, fi.loc(n))
             else:
                 rep.undecided(key, fi.loc(n), 'work-list shape not recognised')
+    if not found:
+        for n in walk_local(fi.node):
+            if isinstance(n, ast.For) and isinstance(pm.get(id(n)), ast.While) or (isinstance(n, ast.For) and any(isinstance(a_, ast.While) for a_ in [pm.get(id(n))])):
+                if _worklist_closure(ctx, fi, pm, n, n.iter, 'for'):
+                    conds = [c for c in ast.walk(n) if isinstance(c, ast.If)]
+                    wrong = [c for c in conds if isinstance(c.test, ast.Compare) and isinstance(c.test.ops[0], ast.In) and norm(c.test.left) == norm(n.target)
+                             and any(isinstance(x, ast.Call) and isinstance(x.func, ast.Attribute) and x.func.attr == 'append' for x in ast.walk(ast.Module(body=c.body, type_ignores=[])))]
+                    found = True
+                    if wrong:
+                        rep.violation(key, fi.loc(n), f'only neighbours that were visited already are put on the agenda (`{norm(wrong[0].test)}`)')
+                    else:
+                        rep.ok(key, fi.loc(n))
     if not found:
         whiles = [n for n in walk_local(fi.node) if isinstance(n, ast.While)]
         if whiles and not any(isinstance(x, ast.Call) and isinstance(x.func, ast.Attribute) and x.func.attr in ('extend', 'append', 'add', 'update') for x in ast.walk(whiles[0])):
